@@ -33,7 +33,7 @@ TypeRec(rec) ==
 CallRec(rec) ==
   LET orig == CT(rec.orig)
       back == [same |-> rec.back.same] @@ CT(rec.back)
-      viol == TraceViol(orig, back, rec.err)
+      viol == TraceViol(orig, back, rec.err, rec.rows_equal)
   IN viol # {} => PrintT(<<"V", ToJson([tid |-> rec.tid, viol |-> viol, drift |-> FALSE])>>)
 
 Step == /\ i <= N
